@@ -5,6 +5,7 @@
 From Coq Require Import List NArith ZArith Bool.
 From GV Require Import Base.Enc Base.Dec Gen.GenErrors Gen.GenAccessLog Model.Handle Model.AccessLog.
 From GV Require Import Proof.HandleProofs Proof.ConnProofs Proof.TraceLemmas Proof.RecordProofs Proof.AccessLogProofs.
+From GV Require Import Spec.ErrResp Spec.Chunked Proof.ChunkedProofs.
 Import ListNotations.
 Local Open Scope N_scope.
 
@@ -30,6 +31,15 @@ Theorem C19_sent_counts_attempts : forall w c st h a fs logged x r fsb body,
     request_outcome w c st h a fs = Some (logged, x, r, fsb, body) -> r_sent r = sumN attempted body.
 Proof. exact sent_is_attempted. Qed.
 Print Assumptions C19_sent_counts_attempts.
+
+(* the link between the events counted above and the bytes on the wire for chunked responses: the frames
+   util.write_chunk writes for the non-empty pieces, closed by Response.close's terminating chunk, are read back by
+   an independent strict chunked reader (Spec/Chunked.v) as exactly the concatenation of the pieces
+   (needs "%X" % n read back as n, for every n) *)
+Theorem C19_chunked_wire_decodes : forall ds, Forall (fun d => d <> []) ds ->
+    dechunk (flat_map chunk_frame ds ++ chunk_frame []) = Some (concat ds).
+Proof. exact chunked_wire_decodes. Qed.
+Print Assumptions C19_chunked_wire_decodes.
 
 (* never two records from handle_request itself *)
 Theorem C19_request_records_at_most_one : forall w c st h a fs hr st1 fs1 evs,
@@ -100,6 +110,9 @@ Example sendfile_record :
   | _ => False
   end.
 Proof. vm_compute. repeat split. Qed.
+
+Example chunked_example : dechunk (chunk_frame [104;105] ++ chunk_frame (repeat 120 300) ++ chunk_frame []) = Some ([104;105] ++ repeat 120 300).
+Proof. vm_compute. reflexivity. Qed.
 
 (* a socket fault while the body is written: the record over-reports *)
 Example fault_overreports :
